@@ -338,28 +338,32 @@ def plan(tier):
             ("S3w-diff-warm", "core+weakref", 1, 2),
             ("S8-operators-warm", "core", 1, 4),
         ]
-    # sized to finish in about an hour on 16 idle cores: bound 2 where an execution is cheap (warm cache) or the visible
-    # set is small (cold cache: the three files that hold the shared state), bound 1 with wide visible sets elsewhere
+    # Cheapest and newest coverage first, the bound-2 sweeps over wide visible sets last, all in small work units: under
+    # the default 9000 s budget of the thorough tier the early configurations complete and whatever part of the late
+    # ones does not fit is reported as not explored (a bound-2 sweep with ~650 scheduling points is ~200 k executions)
     return [
-        ("S1-same-warm", "core+weakref", 2, 16),
-        ("S3w-diff-warm", "core+weakref", 2, 16),
-        ("S6-eval-vs-drop", "core+weakref", 2, 16),
-        ("S2-same-cold", "core+weakref", 1, 16),
-        ("S3-diff-cold", "core+weakref", 1, 16),
-        ("S2-same-cold", "hot", 2, 16),
-        ("S3-diff-cold", "hot", 2, 16),
-        ("S5-three-mixed", "core", 1, 16),
-        ("S4-cffi-cold", "core", 1, 8),
-        ("S4w-cffi-warm", "core", 2, 8),
-        ("S2-same-cold", "all", 1, 16),
-        ("S7-sparse-dense-cold", "all", 1, 16),
-        ("S7r-dense-sparse-cold", "codegen", 1, 16),
-        ("S3-diff-cold", "codegen", 1, 16),
-        ("S8-operators-warm", "hot", 2, 16),
-        ("S8-operators-warm", "core+weakref", 1, 8),
-        ("S8m-operators-mixed", "core", 1, 8),
         ("S9-full-cache-hit-vs-insert", "core", 1, 16),
         ("S9r-full-cache-insert-vs-hit", "core", 1, 16),
+        ("S8-operators-warm", "core+weakref", 1, 8),
+        ("S8m-operators-mixed", "core", 1, 8),
+        ("S2-same-cold", "core+weakref", 1, 16),
+        ("S3-diff-cold", "core+weakref", 1, 16),
+        ("S5-three-mixed", "core", 1, 16),
+        ("S4-cffi-cold", "core", 1, 8),
+        ("S7r-dense-sparse-cold", "codegen", 1, 24),
+        ("S3-diff-cold", "codegen", 1, 24),
+        ("S7-sparse-dense-cold", "codegen", 1, 24),
+        ("S4w-cffi-warm", "core", 2, 32),
+        ("S8-operators-warm", "hot", 2, 32),
+        ("S1-same-warm", "hot", 2, 24),
+        ("S3w-diff-warm", "hot", 2, 24),
+        ("S2-same-cold", "hot", 2, 64),
+        ("S3-diff-cold", "hot", 2, 64),
+        ("S6-eval-vs-drop", "core+weakref", 2, 32),
+        ("S7-sparse-dense-cold", "all", 1, 64),
+        ("S2-same-cold", "all", 1, 64),
+        ("S1-same-warm", "core+weakref", 2, 128),
+        ("S3w-diff-warm", "core+weakref", 2, 128),
     ]
 
 
